@@ -8,11 +8,13 @@ Argot/Gen/T1Dispatch.lean, T8Panics.lean, T11HasPath.lean — rebuilt from /repo
 What is proved here, for ALL control-flow graphs / call graphs / successor functions (no size bound):
   * crash-freedom, table part: every SSA instruction kind is dispatched (`dispatch_total`), every `panic(`
     call site is accounted for (`panic_sites_accounted`);
-  * the path search `lang.HasPathTo`: the CURRENT code (model `hasPathCur`, selected by table T11) always
-    terminates, but only within the exponential bound Σ dⁱ (`hasPathCur_terminates`), and that is tight: on the
-    CFG of n sequential if/else it takes exactly 4·2ⁿ−3 iterations (`hasPathCur_diamonds`), so no linear bound
-    exists (`hasPathCur_not_linear`, the negation of the full-strength statement `LinearlyBounded`); the
-    one-line repair (mark on enqueue, /verif/fixes/F7_haspath.patch) is linear (`hasPathFix_linear`);
+  * the path search `lang.HasPathTo`: the current code (model `hasPathFix`; table T11 must say "enqueue") is linear
+    (`hasPathFix_linear`, the full-strength statement `LinearlyBounded`) and decides reachability. The code before
+    commit 2099ce8 (model `hasPathOld`, finding F7) always terminated, but only within the exponential bound Σ dⁱ
+    (`hasPathOld_terminates`), and that was tight: on the CFG of n sequential if/else it took exactly 4·2ⁿ−3
+    iterations (`hasPathOld_diamonds`), so it had no linear bound (`hasPathOld_not_linear`); the repair changed no
+    answer (`hasPath_repair_same_answer`). These stay as the witness of the defect: if T11 ever says "dequeue"
+    again the obligation `hasPath_marks_on_enqueue` breaks and the driver replays the diamond chain;
   * worklists with a `seen` set whose accepted keys carry repetition-free traces: the visitors' loop
     (`visit_terminates`, escape analysis off) and `GetAllCallingContexts` (`ctx_terminates`), with explicit
     bounds in terms of `numNodup` (the number of repetition-free lists over the labels).
@@ -54,8 +56,9 @@ theorem dispatch_total_full_fails : ¬ DispatchTotalFull := by
 (and vice versa): a new `panic(` — or a removed one — breaks this obligation. -/
 theorem panic_sites_accounted : T8.panicSites = Spec.classified.map Spec.Site.key := by decide
 
-/-- the translator recognised which of the two models describes `lang.HasPathTo`, and the queue is FIFO. -/
-theorem hasPath_shape_known : (T11.markOn = "dequeue" ∨ T11.markOn = "enqueue") ∧ T11.fifo = true := by decide
+/-- `lang.HasPathTo` marks a block when it is ENQUEUED (model `hasPathFix`; since commit 2099ce8, finding F7) and
+the queue is FIFO. Before the repair this table said "dequeue" (model `hasPathOld`). -/
+theorem hasPath_marks_on_enqueue : T11.markOn = "enqueue" ∧ T11.fifo = true := by decide
 
 /-- every expression the visitors use for a successor's `Trace` / `ClosureTrace` is in the hand-classified list
 (same / ancestor / add): the code-side content of hypothesis `StepShape` of `visit_terminates`. -/
@@ -67,7 +70,7 @@ theorem trace_steps_accounted : T12.traceExprs = Spec.traceExprs.map Spec.TraceE
 def LinearlyBounded (run : Cfg → Nat → Nat → Nat → PResult) : Prop :=
   ∃ c, ∀ g src tgt fuel, wf g = true → (run g src tgt fuel).steps ≤ c * (g.length + 1)
 
-/-- **Repaired search is linear**: for every well-formed CFG, source, target and fuel, at most one iteration per
+/-- **The search is linear** (current code): for every well-formed CFG, source, target and fuel, at most one iteration per
 block (+1 when the source is not a block of the CFG), and with `fuel ≥ g.length + 2` the loop exits by itself. -/
 theorem hasPathFix_linear (g : Cfg) (hwf : wf g = true) (src tgt fuel : Nat) :
     (hasPathFix g src tgt fuel).steps ≤ g.length + 1 ∧
@@ -89,52 +92,52 @@ theorem hasPathFix_linear (g : Cfg) (hwf : wf g = true) (src tgt fuel : Nat) :
 theorem hasPathFix_linearlyBounded : LinearlyBounded hasPathFix :=
   ⟨1, fun g src tgt fuel hwf => by have := (hasPathFix_linear g hwf src tgt fuel).1; omega⟩
 
-/-- **Current search terminates, within an exponential bound**: 1 + d + … + dⁿ iterations
+/-- **The search before the repair terminated, within an exponential bound**: 1 + d + … + dⁿ iterations
 (d = largest out-degree, n = number of blocks). -/
-theorem hasPathCur_terminates (g : Cfg) (hwf : wf g = true) (src tgt fuel : Nat) (hsrc : src < g.length) :
-    (hasPathCur g src tgt fuel).steps ≤ geo (maxDeg g) g.length ∧
-    (geo (maxDeg g) g.length < fuel → (hasPathCur g src tgt fuel).done = true) := by
-  have h := runCur_steps g hwf tgt fuel (initCur src) 0 (by simp [initCur]; exact hsrc)
-  have hp : pot (maxDeg g) g.length (initCur src).que (initCur src).vis = geo (maxDeg g) g.length := by
-    simp [pot, initCur, wgt, unvis_nil]
+theorem hasPathOld_terminates (g : Cfg) (hwf : wf g = true) (src tgt fuel : Nat) (hsrc : src < g.length) :
+    (hasPathOld g src tgt fuel).steps ≤ geo (maxDeg g) g.length ∧
+    (geo (maxDeg g) g.length < fuel → (hasPathOld g src tgt fuel).done = true) := by
+  have h := runOld_steps g hwf tgt fuel (initOld src) 0 (by simp [initOld]; exact hsrc)
+  have hp : pot (maxDeg g) g.length (initOld src).que (initOld src).vis = geo (maxDeg g) g.length := by
+    simp [pot, initOld, wgt, unvis_nil]
   rw [hp] at h
-  have hs : (hasPathCur g src tgt fuel).steps ≤ geo (maxDeg g) g.length := by unfold hasPathCur; omega
+  have hs : (hasPathOld g src tgt fuel).steps ≤ geo (maxDeg g) g.length := by unfold hasPathOld; omega
   refine ⟨hs, fun hf => ?_⟩
-  cases hd : (hasPathCur g src tgt fuel).done with
+  cases hd : (hasPathOld g src tgt fuel).done with
   | true => rfl
   | false =>
-    have := runWith_not_done (stepCur g tgt) fuel (initCur src) 0 hd
-    unfold hasPathCur at hs
+    have := runWith_not_done (stepOld g tgt) fuel (initOld src) 0 hd
+    unfold hasPathOld at hs
     omega
 
-/-- **The exponential bound is attained**: on the CFG of `n` sequential `if/else` (3n+1 blocks) the current code,
+/-- **The exponential bound was attained**: on the CFG of `n` sequential `if/else` (3n+1 blocks) the old code,
 asked for a block that is not reachable, performs exactly 4·2ⁿ − 3 loop iterations. -/
-theorem hasPathCur_diamonds (n fuel : Nat) (hf : 4 * 2 ^ n ≤ fuel) :
-    hasPathCur (diamonds n) 0 (3 * n + 1) fuel = { answer := false, steps := 4 * 2 ^ n - 3, done := true } := by
+theorem hasPathOld_diamonds (n fuel : Nat) (hf : 4 * 2 ^ n ≤ fuel) :
+    hasPathOld (diamonds n) 0 (3 * n + 1) fuel = { answer := false, steps := 4 * 2 ^ n - 3, done := true } := by
   have hc := diaSteps_closed n 1
   have h := run_levels n n 0 (by omega) 1 [] (by simp) (fuel - 1 - diaSteps n 1) 0
   have e : fuel - 1 - diaSteps n 1 + 1 + diaSteps n 1 = fuel := by omega
   rw [e] at h
-  have hq : ({ que := List.replicate 1 (head 0), vis := [] } : PState) = initCur 0 := by simp [head, initCur]
+  have hq : ({ que := List.replicate 1 (head 0), vis := [] } : PState) = initOld 0 := by simp [head, initOld]
   rw [hq] at h
-  unfold hasPathCur
+  unfold hasPathOld
   rw [h]
   congr 1
   omega
 
-/-- the repaired search on the same inputs: at most 3n+2 iterations. -/
+/-- the current search on the same inputs: at most 3n+2 iterations. -/
 theorem hasPathFix_diamonds (n fuel : Nat) : (hasPathFix (diamonds n) 0 (3 * n + 1) fuel).steps ≤ 3 * n + 2 := by
   have := (hasPathFix_linear (diamonds n) (diamonds_wf n) 0 (3 * n + 1) fuel).1
   rw [diamonds_length] at this
   exact this
 
 /-- **Both searches decide control-flow reachability** whenever they finish … -/
-theorem hasPathCur_correct (g : Cfg) (src tgt fuel : Nat) (hd : (hasPathCur g src tgt fuel).done = true) :
-    (hasPathCur g src tgt fuel).answer = true ↔ Reach g src tgt :=
-  runCur_correct g src tgt fuel (initCur src) 0
-    { qreach := by intro x hx; simp [initCur] at hx; subst hx; exact Reach.refl
-      vis := by intro x hx; simp [initCur] at hx
-      src := Or.inr (by simp [initCur]) } hd
+theorem hasPathOld_correct (g : Cfg) (src tgt fuel : Nat) (hd : (hasPathOld g src tgt fuel).done = true) :
+    (hasPathOld g src tgt fuel).answer = true ↔ Reach g src tgt :=
+  runOld_correct g src tgt fuel (initOld src) 0
+    { qreach := by intro x hx; simp [initOld] at hx; subst hx; exact Reach.refl
+      vis := by intro x hx; simp [initOld] at hx
+      src := Or.inr (by simp [initOld]) } hd
 
 theorem hasPathFix_correct (g : Cfg) (src tgt fuel : Nat) (hd : (hasPathFix g src tgt fuel).done = true) :
     (hasPathFix g src tgt fuel).answer = true ↔ Reach g src tgt :=
@@ -143,14 +146,14 @@ theorem hasPathFix_correct (g : Cfg) (src tgt fuel : Nat) (hd : (hasPathFix g sr
       vis := by intro x hx; simp [initFix] at hx; subst hx; exact Or.inl (by simp [initFix])
       src := by simp [initFix] } hd
 
-/-- … so **the repair changes no answer**: with enough fuel for both, the repaired search returns exactly what the
-current one returns, on every well-formed CFG. -/
+/-- … so **the repair changed no answer**: with enough fuel for both, the current search returns exactly what the
+old one returned, on every well-formed CFG. -/
 theorem hasPath_repair_same_answer (g : Cfg) (hwf : wf g = true) (src tgt fuel : Nat) (hsrc : src < g.length)
     (hf : geo (maxDeg g) g.length < fuel) (hf' : g.length + 2 ≤ fuel) :
-    (hasPathFix g src tgt fuel).answer = (hasPathCur g src tgt fuel).answer := by
-  have hc := hasPathCur_correct g src tgt fuel ((hasPathCur_terminates g hwf src tgt fuel hsrc).2 hf)
+    (hasPathFix g src tgt fuel).answer = (hasPathOld g src tgt fuel).answer := by
+  have hc := hasPathOld_correct g src tgt fuel ((hasPathOld_terminates g hwf src tgt fuel hsrc).2 hf)
   have hx := hasPathFix_correct g src tgt fuel ((hasPathFix_linear g hwf src tgt fuel).2 hf')
-  cases h1 : (hasPathFix g src tgt fuel).answer <;> cases h2 : (hasPathCur g src tgt fuel).answer <;> simp_all
+  cases h1 : (hasPathFix g src tgt fuel).answer <;> cases h2 : (hasPathOld g src tgt fuel).answer <;> simp_all
 
 theorem pow_growth : ∀ c : Nat, 3 * (c * c) + 11 * c + 3 < 32 * 2 ^ c
   | 0 => by simp
@@ -162,11 +165,11 @@ theorem pow_growth : ∀ c : Nat, 3 * (c * c) + 11 * c + 3 < 32 * 2 ^ c
     rw [e, Nat.pow_succ]
     omega
 
-/-- **Negation witness of the full statement on the current code**: `hasPathCur` has no linear bound. -/
-theorem hasPathCur_not_linear : ¬ LinearlyBounded hasPathCur := by
+/-- **Negation witness of the full statement for the code before the repair**: `hasPathOld` has no linear bound. -/
+theorem hasPathOld_not_linear : ¬ LinearlyBounded hasPathOld := by
   rintro ⟨c, h⟩
   have hb := h (diamonds (c + 3)) 0 (3 * (c + 3) + 1) (4 * 2 ^ (c + 3)) (diamonds_wf _)
-  rw [hasPathCur_diamonds (c + 3) _ (Nat.le_refl _), diamonds_length] at hb
+  rw [hasPathOld_diamonds (c + 3) _ (Nat.le_refl _), diamonds_length] at hb
   simp only at hb
   have hg := pow_growth c
   have e : 2 ^ (c + 3) = 8 * 2 ^ c := by rw [Nat.pow_add]; omega
@@ -181,7 +184,7 @@ theorem hasPathCur_not_linear : ¬ LinearlyBounded hasPathCur := by
 /- concrete instance (the replay on the real tool, corpus/findings/F07_haspath_diamonds, has n = 26): n = 3,
 10 blocks: 29 iterations against 10. -/
 set_option maxRecDepth 8000 in
-example : (hasPathCur (diamonds 3) 0 10 100).steps = 29 ∧ (hasPathFix (diamonds 3) 0 10 100).steps = 10 := by
+example : (hasPathOld (diamonds 3) 0 10 100).steps = 29 ∧ (hasPathFix (diamonds 3) 0 10 100).steps = 10 := by
   decide
 
 /-! ## worklist of the intra-procedural pass -/
@@ -306,15 +309,15 @@ example : numNodup 3 = 16 ∧ geo 2 4 = 31 := by decide
 #print axioms dispatch_total
 #print axioms dispatch_total_full_fails
 #print axioms panic_sites_accounted
-#print axioms hasPath_shape_known
+#print axioms hasPath_marks_on_enqueue
 #print axioms trace_steps_accounted
 #print axioms hasPathFix_linear
 #print axioms hasPathFix_linearlyBounded
-#print axioms hasPathCur_terminates
-#print axioms hasPathCur_diamonds
+#print axioms hasPathOld_terminates
+#print axioms hasPathOld_diamonds
 #print axioms hasPathFix_diamonds
-#print axioms hasPathCur_not_linear
-#print axioms hasPathCur_correct
+#print axioms hasPathOld_not_linear
+#print axioms hasPathOld_correct
 #print axioms hasPathFix_correct
 #print axioms hasPath_repair_same_answer
 #print axioms forwardIterative_terminates
